@@ -350,44 +350,72 @@ theorem santaLucia_congr_upper (n : Num α) {s t : Str} (h : upper s = upper t) 
 
 end generic
 
-/-! ### weak monotonicity from monotone arithmetic (the argument for binary64)
+/-! ### weak monotonicity from monotone, NaN-propagating arithmetic (the argument for binary64)
 
-Every binary64 operation rounds a monotone real function to nearest, so it is monotone itself; a
-sound `log` is monotone too.  `MonoArith n` lists exactly the monotonicity facts the argument uses.
-They are ASSUMPTIONS about the arithmetic (for `Float` they cannot be proved in Lean — the type is
-opaque — and for Go's `math.Log` monotonicity is not documented); for `ℝ` they are theorems
-(`monoArith_real`), so the list is consistent. -/
+`Ok a := a ≤ a` — for binary64 this says "`a` is not NaN" (every other value, ±∞ included, is `≤` itself).
+`MonoArith n` lists the facts the argument uses, each in a form that is TRUE of IEEE-754
+round-to-nearest arithmetic with a sound logarithm, NaN and infinities included:
+
+* NaN propagation (`ok_*`): an operation whose result is not NaN had no NaN operand;
+* monotone rounding: an operation preserves `≤` in the stated argument(s) WHENEVER BOTH RESULTS ARE
+  NOT NaN (this excludes exactly `∞ − ∞`, `0·∞`, `∞/∞`, `0/0`, where IEEE has no order to preserve).
+
+They remain ASSUMPTIONS for the arithmetic the code runs in: Lean's `Float` is opaque, so none of them
+can be proved for it, and Go's `math.Log` is not documented to be monotone.  For `ℝ` they are theorems
+(`monoArith_real`).  An earlier version quantified the laws over all values without the `Ok` guards;
+that structure is false for binary64 (reviewer, round 2) and has been replaced by this one. -/
 
 section mono
 variable {α : Type} [Add α] [Sub α] [Mul α] [Div α] [LE α] [LT α]
 
+/-- "defined": for binary64, not NaN -/
+def Ok (a : α) : Prop := a ≤ a
+
 structure MonoArith (n : Num α) : Prop where
-  le_refl : ∀ a : α, a ≤ a
   le_trans : ∀ {a b c : α}, a ≤ b → b ≤ c → a ≤ c
-  add_le_add_left : ∀ {a b : α} (c : α), a ≤ b → c + a ≤ c + b
-  add_le_add_right : ∀ {a b : α} (c : α), a ≤ b → a + c ≤ b + c
-  sub_le_sub_right : ∀ {a b : α} (c : α), a ≤ b → a - c ≤ b - c
-  mul_le_mul_left : ∀ {a b c : α}, n.ofInt 0 ≤ c → a ≤ b → c * a ≤ c * b
-  mul_le_mul_right : ∀ {a b c : α}, n.ofInt 0 ≤ c → a ≤ b → a * c ≤ b * c
-  div_le_div_right : ∀ {a b c : α}, n.ofInt 0 < c → a ≤ b → a / c ≤ b / c
+  ok_add : ∀ {a b : α}, Ok (a + b) → Ok a ∧ Ok b
+  ok_sub : ∀ {a b : α}, Ok (a - b) → Ok a ∧ Ok b
+  ok_mul : ∀ {a b : α}, Ok (a * b) → Ok a ∧ Ok b
+  ok_div : ∀ {a b : α}, Ok (a / b) → Ok a ∧ Ok b
+  ok_log : ∀ {a : α}, Ok (n.log a) → Ok a
+  add_le_add : ∀ {a a' b b' : α}, a ≤ a' → b ≤ b' → Ok (a + b) → Ok (a' + b') → a + b ≤ a' + b'
+  sub_le_sub_right : ∀ {a b : α} (c : α), a ≤ b → Ok (a - c) → Ok (b - c) → a - c ≤ b - c
+  mul_le_mul_left : ∀ {a b c : α}, n.ofInt 0 ≤ c → a ≤ b → Ok (c * a) → Ok (c * b) → c * a ≤ c * b
+  mul_le_mul_right : ∀ {a b c : α}, n.ofInt 0 ≤ c → a ≤ b → Ok (a * c) → Ok (b * c) → a * c ≤ b * c
+  div_le_div_right : ∀ {a b c : α}, n.ofInt 0 < c → a ≤ b → Ok (a / c) → Ok (b / c) → a / c ≤ b / c
   /-- a non-positive numerator over negative denominators: `a/D` grows with `D` -/
-  div_le_div_left : ∀ {a d d' : α}, a ≤ n.ofInt 0 → d ≤ d' → d' < n.ofInt 0 → a / d ≤ a / d'
-  log_mono : ∀ {a b : α}, n.ofInt 0 < a → a ≤ b → n.log a ≤ n.log b
+  div_le_div_left : ∀ {a d d' : α}, a ≤ n.ofInt 0 → d ≤ d' → d' < n.ofInt 0 → Ok (a / d) → Ok (a / d') →
+    a / d ≤ a / d'
+  log_mono : ∀ {a b : α}, n.ofInt 0 < a → a ≤ b → Ok (n.log a) → Ok (n.log b) → n.log a ≤ n.log b
+
+/-- a defined final entropy accumulator had a defined initial one -/
+theorem nnLoop_ok_back {n : Num α} (A : MonoArith n) : ∀ (u : Str) (h s : α),
+    Ok (nnLoop n u (h, s)).2 → Ok s
+  | [], _, _, hs => hs
+  | [_], _, _, hs => hs
+  | x :: y :: rest, h, s, hs => by
+    simp only [nnLoop] at hs
+    exact (A.ok_add (nnLoop_ok_back A (y :: rest) _ _ hs)).1
 
 theorem nnLoop_mono {n : Num α} (A : MonoArith n) : ∀ (u : Str) (h s₁ s₂ : α), s₁ ≤ s₂ →
+    Ok (nnLoop n u (h, s₁)).2 → Ok (nnLoop n u (h, s₂)).2 →
     (nnLoop n u (h, s₁)).1 = (nnLoop n u (h, s₂)).1 ∧ (nnLoop n u (h, s₁)).2 ≤ (nnLoop n u (h, s₂)).2
-  | [], _, _, _, hs => ⟨rfl, hs⟩
-  | [_], _, _, _, hs => ⟨rfl, hs⟩
-  | x :: y :: rest, h, s₁, s₂, hs => by
-    simp only [nnLoop]
-    exact nnLoop_mono A (y :: rest) _ _ _ (A.add_le_add_right _ hs)
+  | [], _, _, _, hs, _, _ => ⟨rfl, hs⟩
+  | [_], _, _, _, hs, _, _ => ⟨rfl, hs⟩
+  | x :: y :: rest, h, s₁, s₂, hs, o₁, o₂ => by
+    simp only [nnLoop] at o₁ o₂ ⊢
+    have b₁ := nnLoop_ok_back A (y :: rest) _ _ o₁
+    have b₂ := nnLoop_ok_back A (y :: rest) _ _ o₂
+    exact nnLoop_mono A (y :: rest) _ _ _ (A.add_le_add hs (A.ok_add b₁).2 b₁ b₂) o₁ o₂
 
-/-- The salt step and the loop: a larger salt effect gives the same dH and a dS at least as large. -/
+/-- The salt step and the loop: a larger salt effect gives the same dH and a dS at least as large
+(both entropies defined). -/
 theorem coreUpper_mono {n : Num α} (A : MonoArith n) (u : Str) {na na' mg mg' : α}
     (hna : na ≤ na') (hmg : mg ≤ mg') (h140 : n.ofInt 0 ≤ n.ofInt 140)
     (hK : n.ofInt 0 ≤ n.dec 368 3 * n.ofInt ((u.length : Int) - 1))
     (hsalt : n.ofInt 0 < na + mg * n.ofInt 140) {k k' : Core α}
-    (hk : coreUpper n u na mg = .ok k) (hk' : coreUpper n u na' mg' = .ok k') :
+    (hk : coreUpper n u na mg = .ok k) (hk' : coreUpper n u na' mg' = .ok k')
+    (ho : Ok k.dS) (ho' : Ok k'.dS) :
     k.dH = k'.dH ∧ k.symmetryFactor = k'.symmetryFactor ∧ k.dS ≤ k'.dS := by
   unfold coreUpper at hk hk'
   cases hl : u.getLast? with
@@ -396,16 +424,28 @@ theorem coreUpper_mono {n : Num α} (A : MonoArith n) (u : Str) {na na' mg mg' :
     rw [hl] at hk hk'
     simp only [Outcome.ok.injEq] at hk hk'
     subst hk; subst hk'
+    simp only at ho ho'
+    -- backwards: every intermediate of the two evaluations is defined
+    have a₁ := nnLoop_ok_back A u _ _ ho
+    have a₂ := nnLoop_ok_back A u _ _ ho'
+    have m₁ := (A.ok_add a₁).2
+    have m₂ := (A.ok_add a₂).2
+    have l₁ := (A.ok_mul m₁).2
+    have l₂ := (A.ok_mul m₂).2
+    have s₁ := A.ok_log l₁
+    have s₂ := A.ok_log l₂
+    -- forwards: order is preserved step by step
     have hs : na + mg * n.ofInt 140 ≤ na' + mg' * n.ofInt 140 :=
-      A.le_trans (A.add_le_add_right _ hna) (A.add_le_add_left _ (A.mul_le_mul_right h140 hmg))
-    have hlog := A.log_mono hsalt hs
-    have hterm := A.mul_le_mul_left hK hlog
-    obtain ⟨e1, e2⟩ := nnLoop_mono A u _ _ _ (A.add_le_add_left _ hterm)
+      A.add_le_add hna (A.mul_le_mul_right h140 hmg (A.ok_add s₁).2 (A.ok_add s₂).2) s₁ s₂
+    have hlog := A.log_mono hsalt hs l₁ l₂
+    have hterm := A.mul_le_mul_left hK hlog m₁ m₂
+    obtain ⟨e1, e2⟩ := nnLoop_mono A u _ _ _ (A.add_le_add (A.ok_add a₁).1 hterm a₁ a₂) ho ho'
     exact ⟨e1, rfl, e2⟩
 
 /-- **Weak monotonicity of the model in all three concentrations at once**, for any arithmetic with
-monotone operations, under sign conditions on the COMPUTED values (all decidable on concrete
-binary64 inputs; over ℝ they are `exactDH_neg`, `exactDen_neg` …). -/
+monotone, NaN-propagating operations, when both reported temperatures are defined (`Ok`: not NaN)
+and the COMPUTED values have the signs of the regime (all decidable on concrete binary64 inputs;
+over ℝ they are `exactDH_neg`, `exactDen_neg` …). -/
 theorem santaLucia_weak_mono {n : Num α} (A : MonoArith n) (s : Str) {c c' na na' mg mg' : α}
     (hc : c ≤ c') (hna : na ≤ na') (hmg : mg ≤ mg')
     (h140 : n.ofInt 0 ≤ n.ofInt 140) (hR : n.ofInt 0 ≤ n.dec 19872 4)
@@ -416,44 +456,57 @@ theorem santaLucia_weak_mono {n : Num α} (A : MonoArith n) (s : Str) {c c' na n
     (hH : k.dH * n.ofInt 1000 ≤ n.ofInt 0)
     (hD : k'.dS + n.dec 19872 4 * n.log (c' / k'.symmetryFactor) < n.ofInt 0)
     {t h S t' h' S' : α} (hr : santaLucia n s c na mg = .ok (t, h, S))
-    (hr' : santaLucia n s c' na' mg' = .ok (t', h', S')) :
+    (hr' : santaLucia n s c' na' mg' = .ok (t', h', S')) (ot : Ok t) (ot' : Ok t') :
     h = h' ∧ S ≤ S' ∧ t ≤ t' := by
   unfold santaLuciaCore at hk hk'
-  obtain ⟨eH, eF, eS⟩ := coreUpper_mono A (upper s) hna hmg h140 hK hsalt hk hk'
   unfold santaLucia santaLuciaCore at hr hr'
   rw [hk] at hr; rw [hk'] at hr'
   simp only [Outcome.map, Outcome.ok.injEq, Prod.mk.injEq] at hr hr'
   obtain ⟨rfl, rfl, rfl⟩ := hr
   obtain ⟨rfl, rfl, rfl⟩ := hr'
+  -- backwards from the two defined temperatures
+  have q₁ := (A.ok_sub ot).1
+  have q₂ := (A.ok_sub ot').1
+  have d₁ := (A.ok_div q₁).2
+  have d₂ := (A.ok_div q₂).2
+  obtain ⟨eH, eF, eS⟩ := coreUpper_mono A (upper s) hna hmg h140 hK hsalt hk hk' (A.ok_add d₁).1 (A.ok_add d₂).1
   refine ⟨eH, eS, ?_⟩
-  rw [← eF] at hD
+  rw [← eF] at hD d₂ q₂ ot'
+  rw [← eH] at q₂ ot'
   rw [← eF, ← eH]
-  have h1 : c / k.symmetryFactor ≤ c' / k.symmetryFactor := A.div_le_div_right hf hc
-  have h2 := A.mul_le_mul_left hR (A.log_mono hcf h1)
+  have r₁ := (A.ok_add d₁).2
+  have r₂ := (A.ok_add d₂).2
+  have g₁ := (A.ok_mul r₁).2
+  have g₂ := (A.ok_mul r₂).2
+  have h1 : c / k.symmetryFactor ≤ c' / k.symmetryFactor :=
+    A.div_le_div_right hf hc (A.ok_log g₁) (A.ok_log g₂)
+  have h2 := A.mul_le_mul_left hR (A.log_mono hcf h1 g₁ g₂) r₁ r₂
   have h3 : k.dS + n.dec 19872 4 * n.log (c / k.symmetryFactor)
-      ≤ k'.dS + n.dec 19872 4 * n.log (c' / k.symmetryFactor) :=
-    A.le_trans (A.add_le_add_left _ h2) (A.add_le_add_right _ eS)
-  exact A.sub_le_sub_right _ (A.div_le_div_left hH h3 hD)
+      ≤ k'.dS + n.dec 19872 4 * n.log (c' / k.symmetryFactor) := A.add_le_add eS h2 d₁ d₂
+  exact A.sub_le_sub_right _ (A.div_le_div_left hH h3 hD q₁ q₂) ot ot'
 
 end mono
 
 /-- the assumptions hold for exact real arithmetic (consistency of `MonoArith`) -/
 theorem monoArith_real : MonoArith realNum where
-  le_refl := le_refl
   le_trans := le_trans
-  add_le_add_left := fun c h => by linarith
-  add_le_add_right := fun c h => by linarith
-  sub_le_sub_right := fun c h => by linarith
-  mul_le_mul_left := fun {a b c} hc h => by
+  ok_add := fun _ => ⟨le_refl _, le_refl _⟩
+  ok_sub := fun _ => ⟨le_refl _, le_refl _⟩
+  ok_mul := fun _ => ⟨le_refl _, le_refl _⟩
+  ok_div := fun _ => ⟨le_refl _, le_refl _⟩
+  ok_log := fun _ => le_refl _
+  add_le_add := fun h1 h2 _ _ => by linarith
+  sub_le_sub_right := fun c h _ _ => by linarith
+  mul_le_mul_left := fun {a b c} hc h _ _ => by
     have : (0 : ℝ) ≤ c := by simpa [realNum] using hc
     exact mul_le_mul_of_nonneg_left h this
-  mul_le_mul_right := fun {a b c} hc h => by
+  mul_le_mul_right := fun {a b c} hc h _ _ => by
     have : (0 : ℝ) ≤ c := by simpa [realNum] using hc
     exact mul_le_mul_of_nonneg_right h this
-  div_le_div_right := fun {a b c} hc h => by
+  div_le_div_right := fun {a b c} hc h _ _ => by
     have : (0 : ℝ) < c := by simpa [realNum] using hc
     exact div_le_div_of_nonneg_right h this.le
-  div_le_div_left := fun {a d d'} ha h hd' => by
+  div_le_div_left := fun {a d d'} ha h hd' _ _ => by
     have ha' : a ≤ (0 : ℝ) := by simpa [realNum] using ha
     have hd0 : d' < (0 : ℝ) := by simpa [realNum] using hd'
     have hd : d < 0 := lt_of_le_of_lt h hd0
@@ -463,7 +516,7 @@ theorem monoArith_real : MonoArith realNum where
       · exact le_refl _
       · exact ((inv_lt_inv_of_neg hd0 hd).2 hlt).le
     exact mul_le_mul_of_nonpos_left hinv ha'
-  log_mono := fun {a b} ha h => by
+  log_mono := fun {a b} ha h _ _ => by
     have : (0 : ℝ) < a := by simpa [realNum] using ha
     exact Real.log_le_log this h
 
